@@ -244,6 +244,7 @@ func (e *env) seeds() []seed {
 	}
 	s = append(s, e.packageMade()...)
 	s = append(s, e.craftedPKESK()...)
+	s = append(s, e.craftedHashSubstitution()...)
 	total := 0
 	byKind := map[string]int{}
 	for _, x := range s {
@@ -252,4 +253,40 @@ func (e *env) seeds() []seed {
 	}
 	c.Set("seeds", map[string]any{"count": len(s), "octets": total, "by_kind": byKind})
 	return s
+}
+
+// craftedHashSubstitution: detached signatures whose hash-algorithm octet names another digest
+// (shorter or longer than the one signed with) and whose "left 16 bits" field is recomputed so
+// that the quick check passes: the verification code then runs with a digest whose length does
+// not fit the key (a DSA subgroup shorter or longer than the digest, an ECDSA curve, an RSA
+// modulus). A blind substitution of that octet passes the 16-bit check once in 65536.
+func (e *env) craftedHashSubstitution() []seed {
+	var out []seed
+	for _, n := range []string{"det.rsa.SHA256.sig", "dettext.dsa.sig", "det.p521.SHA512.sig"} {
+		sig := pgpfix.Msg(n)
+		pk, err := pgpref.SplitPackets(sig)
+		if err != nil || len(pk) != 1 {
+			continue
+		}
+		b0 := pk[0].BodyStart
+		for _, id := range []int{1, 2, 8, 9, 10, 11} {
+			m := append([]byte(nil), sig...)
+			body := m[b0:]
+			if len(body) < 6 || body[0] != 4 || int(body[3]) == id {
+				continue
+			}
+			body[3] = byte(id)
+			rs, err := pgpref.ParseSigV4(body)
+			if err != nil {
+				continue
+			}
+			d, _, err := rs.Digest(e.doc)
+			if err != nil {
+				continue
+			}
+			body[rs.UnhashedEnd], body[rs.UnhashedEnd+1] = d[0], d[1]
+			out = append(out, seed{fmt.Sprintf("crafted: %s with hash algorithm octet %d and a matching hash prefix", n, id), m, "detached signature"})
+		}
+	}
+	return out
 }
